@@ -52,27 +52,75 @@ Fixpoint find_begin (ds : list (option ekind * string)) (l : string) : option (o
 Definition mk_block (id : option ekind) (ib ie : string) (body : list uline) : item16 :=
   match id with Some k => Block k ib ie body | None => SigBlock ib ie body end.
 
-Fixpoint parse16_go (cur : option (option ekind * string * string * list uline)) (ls : list string) : option template16 :=
+(* reader state: outside blocks / inside a per-element or signature block / inside the nested transition block at the
+   per-state, per-event, per-transition level *)
+Inductive pstate :=
+| P0
+| PB (id : option ekind) (w ib : string) (acc : list uline)
+| PT (ib : string) (tacc : list titem)
+| PE (ib : string) (tacc : list titem) (ibe : string) (eacc : list eitem)
+| PG (ib : string) (tacc : list titem) (ibe : string) (eacc : list eitem) (ibg : string) (gacc : list uline).
+
+Fixpoint parse16_go (cur : pstate) (ls : list string) : option template16 :=
   match ls with
-  | [] => match cur with None => Some [] | Some _ => None end
+  | [] => match cur with P0 => Some [] | _ => None end
   | l :: r =>
       match cur with
-      | None =>
-          match find_begin delims l with
-          | Some (id, w, ib) => parse16_go (Some (id, w, ib, [])) r
-          | None => option_map (cons (match chop_nl l with Some txt => Text txt | None => Raw l end)) (parse16_go None r)
+      | P0 =>
+          match strip_suffix (begin_line "PER_STATETRANSITION") l with
+          | Some ib => parse16_go (PT ib []) r
+          | None =>
+              match find_begin delims l with
+              | Some (id, w, ib) => parse16_go (PB id w ib []) r
+              | None => option_map (cons (match chop_nl l with
+                                          | Some txt => if no3 txt then Text txt else InitLine (parse_segs txt)   (* a tag outside blocks: the initial state *)
+                                          | None => Raw l
+                                          end)) (parse16_go P0 r)
+              end
           end
-      | Some (id, w, ib, acc) =>
+      | PB id w ib acc =>
           match strip_suffix (end_line w) l with
-          | Some ie => option_map (cons (mk_block id ib ie (rev acc))) (parse16_go None r)
+          | Some ie => option_map (cons (mk_block id ib ie (rev acc))) (parse16_go P0 r)
           | None => match chop_nl l with
-                    | Some b => parse16_go (Some (id, w, ib, parse_segs b :: acc)) r
+                    | Some b => parse16_go (PB id w ib (parse_segs b :: acc)) r
+                    | None => None
+                    end
+          end
+      | PT ib tacc =>
+          match strip_suffix (end_line "PER_STATETRANSITION") l with
+          | Some ie => option_map (cons (TransBlock ib ie (rev tacc))) (parse16_go P0 r)
+          | None =>
+              match strip_suffix (begin_line "PER_EVENTTRANSITION") l with
+              | Some ibe => parse16_go (PE ib tacc ibe []) r
+              | None => match chop_nl l with
+                        | Some b => parse16_go (PT ib (TLine (parse_segs b) :: tacc)) r
+                        | None => None
+                        end
+              end
+          end
+      | PE ib tacc ibe eacc =>
+          match strip_suffix (end_line "PER_EVENTTRANSITION") l with
+          | Some iee => parse16_go (PT ib (TEvent ibe iee (rev eacc) :: tacc)) r
+          | None =>
+              match strip_suffix (begin_line "PER_GUARDTRANSITION") l with
+              | Some ibg => parse16_go (PG ib tacc ibe eacc ibg []) r
+              | None => match chop_nl l with
+                        | Some b => parse16_go (PE ib tacc ibe (ELine (parse_segs b) :: eacc)) r
+                        | None => None
+                        end
+              end
+          end
+      | PG ib tacc ibe eacc ibg gacc =>
+          match strip_suffix (end_line "PER_GUARDTRANSITION") l with
+          | Some ieg => parse16_go (PE ib tacc ibe (EGuard ibg ieg (rev gacc) :: eacc)) r
+          | None => match chop_nl l with
+                    | Some b => parse16_go (PG ib tacc ibe eacc ibg (parse_segs b :: gacc)) r
                     | None => None
                     end
           end
       end
   end.
-Definition parse16 (ls : list string) : option template16 := parse16_go None ls.
+Definition parse16 (ls : list string) : option template16 := parse16_go P0 ls.
 
 (* a shipped template file under a concrete first-filter dictionary: the lines after the first filtering, read back *)
 Definition shipped16 (dict : list (string * string)) (lines : list string) : option (list string * template16) :=
